@@ -502,3 +502,125 @@ def xff11_decode_longer(h):
             per_record(g[0], list(buf[:ABILITY_RECORD]), 0)
     h.oblige("exactly the one announced record is decoded (the extra bytes are skipped, not read as another AC)", count == 1)
     h.oblige("nothing left over", h.length(h.attr(r.value, "remaining")) == 0)
+
+
+# ================================ 0xFF13 zone names ==============================================
+
+ZONE_NAME_MAX = 12
+ZN_FNS = [XZN + ":ZoneNamesEncoder.size", XZN + ":ZoneNamesEncoder.encode", XZN + ":ZoneNamesDecoder.decode"]
+
+
+def gen_zone_names(h, name_bytes):
+    """A ZoneNamesMessage with len(name_bytes) zones: pairwise distinct zone numbers 0..15 (vendor: zone
+    index 0-15; the message holds a dict, so its keys are distinct) and names of the given UTF-8 lengths
+    (name length is a byte on the wire; any byte value incl. NUL may occur inside a name)."""
+    zs = [h.int(f"zone{i}_number", 0, 15) for i in range(len(name_bytes))]
+    for i in range(len(zs)):
+        for j in range(i):
+            h.assume(zs[i] != zs[j], "zone numbers are dict keys: pairwise distinct")
+    names = [h.string(f"zone{i}_name", n, no_nul=False) for i, n in enumerate(name_bytes)]
+    return h.new(XZN + ":ZoneNamesMessage", zone_names=dict(zip(zs, names))), zs, names
+
+
+def zone_names_wire(h, zs, names):
+    """Vendor layout (page 14): per zone Byte3 zone index, Byte4 name length, Byte5..n name; repeated."""
+    exp = []
+    for z, nm in zip(zs, names):
+        b = h.utf8(nm)
+        exp.extend([z, len(b)] + b)
+    return exp
+
+
+@oset("at5.xFF13.roundtrip.request", ["C03"], ZN_FNS)
+def xff13_roundtrip_request(h):
+    which = h.choice("request", ["ALL", "one"])
+    msg = h.new(XZN + ":ZoneNamesRequest", zone_number="ALL" if which == "ALL" else h.int("zone_number", 0, 255))
+    roundtrip_plain(h, XZN + ":ZoneNamesEncoder", XZN + ":ZoneNamesDecoder", msg, at5_ext_subheader, ID_ZONE_NAMES)
+
+
+def _zone_names_roundtrip(h, name_bytes):
+    msg, zs, names = gen_zone_names(h, name_bytes)
+    # an empty names message is, on the wire, the request for all zones (no data): same message id
+    out = roundtrip_plain(h, XZN + ":ZoneNamesEncoder", XZN + ":ZoneNamesDecoder", msg, at5_ext_subheader, ID_ZONE_NAMES,
+                          expect=h.new(XZN + ":ZoneNamesRequest", zone_number="ALL") if not name_bytes else None)
+    if out is None:
+        return
+    exp = zone_names_wire(h, zs, names)
+    items = h.items(out)
+    h.oblige("wire: per zone Byte3 zone index, Byte4 name length, Byte5.. the UTF-8 name",
+             And(*[a == b for a, b in zip(items, exp)]) if len(items) == len(exp) else False)
+
+
+@oset("at5.xFF13.roundtrip.one-zone", ["C03"], ZN_FNS,
+      bounded=f"name length <= {ZONE_NAME_MAX} bytes (every length 0..{ZONE_NAME_MAX}, every byte value incl. multi-byte UTF-8)")
+def xff13_roundtrip_one(h):
+    _zone_names_roundtrip(h, [h.choice("name_bytes", list(range(0, ZONE_NAME_MAX + 1)))])
+
+
+_ZONE_COUNT_NAME_BYTES = [6, 7, 7, 0, 12, 1, 3, 9, 2, 5, 11, 4, 8, 10, 6, 1]
+
+
+@oset("at5.xFF13.roundtrip.counts-0-16", ["C03"], ZN_FNS,
+      bounded=f"name length <= {ZONE_NAME_MAX} bytes; in this set the name length of zone i is fixed ({_ZONE_COUNT_NAME_BYTES})")
+def xff13_roundtrip_counts(h):
+    """All zone counts 0..16, pairwise distinct symbolic zone numbers, fully symbolic names."""
+    n = h.choice("count", list(range(0, 17)))
+    _zone_names_roundtrip(h, _ZONE_COUNT_NAME_BYTES[:n])
+
+
+ZN_PAYLOAD_MAX = 10
+
+
+@oset("at5.xFF13.decode-vendor-reading", ["C05", "C17"], ZN_FNS[2:],
+      bounded=f"payload length <= {ZN_PAYLOAD_MAX} bytes (every length, all byte values, every way the records tile it)",
+      assumptions=["len(payload) == sub-header.message_length (what the receive path hands to a sub-decoder)",
+                   "the vendor document is silent about a zone index that occurs twice: the last name wins (accepted)"])
+def xff13_decode(h):
+    L = h.choice("payload_length", list(range(0, ZN_PAYLOAD_MAX + 1)))
+    buf = h.bytes("payload", L)
+    items = h.items(buf)
+    dec = h.new(XZN + ":ZoneNamesDecoder")
+    r = h.method(dec, "decode", buf, at5_ext_subheader(h, ID_ZONE_NAMES, L))
+    h.oblige("returns or rejects", only_rejects(h, r))
+    # vendor reading of the payload: records (zone index, name length n, n name bytes) back to back
+    recs = []
+    off = 0
+    tiled = True
+    while off < L:
+        if off + 1 >= L:
+            tiled = False
+            break
+        n = _concrete(h, items[off + 1], 0, L - off - 2)
+        if n is None:
+            tiled = False
+            break
+        recs.append((items[off], items[off + 2:off + 2 + n]))
+        off += 2 + n
+    if not r.ok:
+        h.oblige("a payload whose records tile it exactly is rejected only for invalid UTF-8",
+                 Or(not tiled, r.raised("UnicodeDecodeError")))
+        return
+    m = h.attr(r.value, "message")
+    if h.isinstance(m, XZN + ":ZoneNamesRequest"):
+        z = h.attr(m, "zone_number")
+        if isinstance(z, str):
+            h.oblige("request for all zones <=> no data", And(L == 0, z == "ALL"))
+        else:
+            h.oblige("request for one zone <=> the data is one byte, the zone index", And(L == 1, z == items[0]) if L == 1 else False)
+        h.oblige("request: nothing left over", h.length(h.attr(r.value, "remaining")) == 0)
+        return
+    h.oblige("a names message is accepted only if its records tile the payload exactly", tiled)
+    if not tiled:
+        return
+    got = [(k, h.utf8(v)) for k, v in h.attr(m, "zone_names").items()]
+    for i, (z, name) in enumerate(recs):
+        later = Or(*[zj == z for zj, _ in recs[i + 1:]])
+        here = Or(*[And(k == z, And(*[a == b for a, b in zip(v, name)])) for k, v in got if len(v) == len(name)])
+        h.oblige("every record's name is the decoded name of its zone index (unless the index occurs again later)", Or(later, here))
+    for k, _ in got:
+        h.oblige("every decoded zone index is the zone index of a record", Or(*[k == z for z, _ in recs]))
+    for i in range(len(got)):
+        for j in range(i):
+            h.oblige("decoded zone indices are pairwise distinct", got[i][0] != got[j][0])
+    h.oblige("nothing left over", h.length(h.attr(r.value, "remaining")) == 0)
+    h.cover("xFF13 decode returns a message")
